@@ -8,6 +8,18 @@ from .spec import SpecError, parse_expr, Clause
 from . import ssa as S
 
 
+class TrackDict(dict):
+    """field dictionary of a probe formal: remembers which fields were read"""
+
+    def __init__(self, d):
+        dict.__init__(self, d)
+        self.used = set()
+
+    def __getitem__(self, k):
+        self.used.add(k)
+        return dict.__getitem__(self, k)
+
+
 class Verifier(Exec):
     def __init__(self, prog, specs, fname, opts=None, resolver=None):
         Exec.__init__(self, prog, specs, fname, opts)
@@ -23,6 +35,7 @@ class Verifier(Exec):
         self.specfun_axioms = set()
         self.pending_specfun = []
         self.unfolding = 0
+        self.sf_fields = {}
         self.sf_heaps = {}
         self.heap_record = None
         self.conc_done = set()
@@ -223,7 +236,12 @@ class Verifier(Exec):
             return v
         raise Unsupported('snapshot of %r' % (v,))
 
-    def flatten(self, v, out):
+    def flatten(self, v, out, fields=None):
+        if isinstance(v, SnapV) and fields is not None:
+            for f in self.struct_fields(v.tid):
+                if f['name'] in fields:
+                    self.flatten(v.f[f['name']], out)
+            return out
         if isinstance(v, T):
             out.append(v)
         elif isinstance(v, SeqV):
@@ -304,11 +322,21 @@ class Verifier(Exec):
         # uninterpreted; recursive definitions are unfolded once at every ground occurrence (no quantified
         # defining axiom: that caused matching loops on large bodies)
         snaps = [self.snapshot(ev.st, a) for a in args]
+        heaps_ = self.specfun_heaps(sf, ev.st)
+        fields_ = (self.sf_fields.get(sf.name) if not self.opts.get('allfields') else None) or [None] * len(snaps)
+        if fields_ == 'pending':
+            fields_ = [set() if isinstance(s_, SnapV) else None for s_ in snaps]     # recursive call while probing: adds no needs of its own
+        if self.heap_record is not None:
+            # probing a caller: the callee's field needs are the caller's needs too
+            for s_, fl in zip(snaps, fields_):
+                if isinstance(s_, SnapV) and isinstance(s_.f, TrackDict):
+                    for fn_ in (fl if fl is not None else list(s_.f.keys())):
+                        s_.f.used.add(fn_)
         flat = []
-        for s_ in snaps:
-            self.flatten(s_, flat)
+        for s_, fl in zip(snaps, fields_):
+            self.flatten(s_, flat, fl)
         # heaps the body reads through pointers become explicit extra arguments
-        for hn in self.specfun_heaps(sf, ev.st):
+        for hn in heaps_:
             flat.append(self.heap_get(ev.st, hn, None))
         rsort = BOOL if sf.ret == 'bool' else INT
         fname = 'sf:' + sf.name
@@ -356,7 +384,11 @@ class Verifier(Exec):
         if hs is not None:
             return hs
         self.sf_heaps[sf.name] = []          # recursion guard
+        self.sf_fields[sf.name] = 'pending'
         formals = [self.formal('probe$%s' % p[0], self.parse_type(p[1])) for p in sf.params]
+        for f_ in formals:
+            if isinstance(f_, SnapV):
+                f_.f = TrackDict(f_.f)
         env = dict((p[0], f) for p, f in zip(sf.params, formals))
         rec = set()
         saved = self.heap_record
@@ -375,6 +407,7 @@ class Verifier(Exec):
             self.ctx.assumptions = saved_assumptions
         hs = sorted(n for n in rec if not n.startswith(('MAP', 'INIT')) and not self.is_global_heap(n))
         self.sf_heaps[sf.name] = hs
+        self.sf_fields[sf.name] = [(set(f_.f.used) if isinstance(f_, SnapV) else None) for f_ in formals]
         if hs:
             self.trusted.discard(None)
         return hs
@@ -1744,6 +1777,97 @@ class Verifier(Exec):
         out[(b, s)] = ns
 
     # ------------------------------------------------------------------ loops
+    def store_heaps(self, tid):
+        """heap names a store of a value of type tid can touch (as element, field or object)"""
+        names = set()
+        try:
+            if self.is_scalar(tid) and not self.is_string(tid):
+                names.add(self.hs_name(tid))
+                names.add('HB:' + self.elem_key(tid))
+                names.add('INIT:' + self.elem_key(tid))
+            for hn, srt, two, via in self.leaf_heaps(tid):
+                names.add(hn)
+                if two:
+                    names.add('INIT:' + hn[3:])
+        except Unsupported:
+            return None
+        return names
+
+    def loop_written_heaps(self, lp):
+        """over-approximation (by static type) of the heaps that stores inside the loop can modify; None = any"""
+        names = set()
+        regtype = {}
+        for b in self.fn['blocks']:
+            for ins in b['instrs']:
+                if ins.get('name'):
+                    regtype[ins['name']] = ins
+        for b in lp.body:
+            for ins in self.cfg.blocks[b]['instrs']:
+                op = ins['op']
+                add_ = None
+                if op == 'Store':
+                    a = ins['addr']
+                    if a['k'] == 'reg':
+                        n = a['n']
+                        root = n if n in self.allocs else self.derived.get(n)
+                        if root is not None and root in self.cellset:
+                            continue
+                    at_ = a.get('type')
+                    if not at_ or self.kind(at_) != 'pointer':
+                        return None
+                    et = self.U(at_)['elem']
+                    add_ = self.store_heaps(et)
+                    # a store through a field address touches the field heap of the owning struct
+                    d = regtype.get(a.get('n'))
+                    if d is not None and d['op'] == 'FieldAddr':
+                        ot = d['x'].get('type')
+                        if ot and self.kind(ot) == 'pointer':
+                            st_ = self.U(ot)['elem']
+                            f = self.struct_fields(st_)[d['field']]
+                            pre = 'HF:%s.%s' % (self.tname(st_), f['name'])
+                            add_ = set(add_ or ())
+                            add_.add(pre)
+                            for s_ in ('arr', 'off', 'len', 'cap'):
+                                add_.add(pre + '.' + s_)
+                elif op == 'Alloc':
+                    if ins['name'] in self.cellset:
+                        continue
+                    add_ = self.store_heaps(ins['elem'])
+                elif op == 'MakeSlice':
+                    add_ = self.store_heaps(self.U(ins['type'])['elem'])
+                elif op == 'Call':
+                    c_ = ins['call']
+                    val_ = c_.get('value') or {}
+                    if val_.get('k') == 'builtin':
+                        if val_.get('n') in ('append', 'copy'):
+                            t0 = c_['args'][0].get('type')
+                            add_ = self.store_heaps(self.U(t0)['elem']) if t0 and self.kind(t0) == 'slice' else None
+                            if add_ is None:
+                                return None
+                        elif val_.get('n') == 'delete':
+                            return None
+                        else:
+                            continue
+                    else:
+                        callee = c_.get('static')
+                        sp_ = self.find_spec(callee) if callee else None
+                        if sp_ is None or sp_.modifies:
+                            return None
+                        continue
+                elif op == 'Convert':
+                    if self.kind(ins['type']) == 'slice' or self.is_string(ins['type']):
+                        add_ = set(['HS:uint8', 'HS:int32'])
+                    else:
+                        continue
+                elif op in ('MapUpdate', 'Go', 'Defer', 'Send', 'MakeMap', 'MakeChan', 'Select'):
+                    return None
+                else:
+                    continue
+                if add_ is None:
+                    return None
+                names |= add_
+        return names
+
     def loop_modified(self, lp):
         """cells stored and heaps possibly written inside the loop"""
         cells = set()
@@ -1819,12 +1943,13 @@ class Verifier(Exec):
             na = self.ctx.fresh('alloc', INT)
             self.ctx.assume(le(pre.alloc, na))
             st.alloc = na
+            wh = self.loop_written_heaps(lp)
             if regions is not None:
                 self.havoc_regions(st, [r for r in regions if r[0] != 'fresh'] , 'loop%s' % lp.ordinal)
-                self.havoc_fresh(st, pre.alloc, 'loop%s' % lp.ordinal)
+                self.havoc_fresh(st, pre.alloc, 'loop%s' % lp.ordinal, wh)
             elif self.writable is not None:
                 self.havoc_regions(st, [r for r in self.writable if r[0] != 'fresh'], 'loop%s' % lp.ordinal)
-                self.havoc_fresh(st, self.alloc0, 'loop%s' % lp.ordinal)
+                self.havoc_fresh(st, self.alloc0, 'loop%s' % lp.ordinal, wh)
             else:
                 self.havoc_regions(st, [('any',)], 'loop%s' % lp.ordinal)
         st.pc = self.ctx.name('pcL%d' % h, st.pc)
@@ -1856,7 +1981,7 @@ class Verifier(Exec):
                         return cell, i2['y']
         return None
 
-    def havoc_fresh(self, st, base, tag):
+    def havoc_fresh(self, st, base, tag, only=None):
         """objects allocated at or after `base` may have been written: forget their contents.
         Encoded by replacing each heap with a fresh one that agrees below `base` (for roots)."""
         c = self.ctx
@@ -1866,6 +1991,8 @@ class Verifier(Exec):
                 continue   # already havoc'd by regions: weaken instead? keep (regions havoc is stronger info)
             # only matters if something fresh could exist: base < current alloc.  Cheap syntactic test:
             if st.alloc is base or name.startswith('MAP'):
+                continue
+            if only is not None and name not in only:
                 continue
             new = c.fresh(tag + 'f:' + name, old.sort)
             st.heap[name] = new
